@@ -92,7 +92,7 @@ func cmdCheck(args []string) {
 	}
 	t0 := time.Now()
 	thorough := *tier == "thorough"
-	timeoutS := 60
+	timeoutS := 90
 	if thorough {
 		timeoutS = 240
 	}
